@@ -513,6 +513,11 @@ def routing(facts, res, classes):
 
 
 def run(res, tier):
+    res.rule("C01.9 every particle of the closed box is binned in a leaf of the grid, the one that contains it (rules C06.6 grid range / cell of position / rounded corner on getTreeCoordinate): a leaf index outside the level's range makes a second root and the pairs across it are lost")
+    import c06 as _c06
+    _sub = tbf.Result("C06")
+    _c06.grid_range(tbf.scan("core"), _sub)
+    tbf.reexport(res, _sub, ("C06.6",), "C01.9.binned-in-the-grid", min_instances=2)
     facts = tbf.scan("core")
     res.units.append("umbrella TU 'core': sequential and OpenMP executors (single tree and target/source), TbfGroupKernelInterface, both ordering classes, tbfalgorithmutils.hpp, tbfinteraction.hpp")
     res.assumptions.append("Decides five structural necessary conditions of exactly-once; which cells a list builder enumerates (the 3^Dim / 2^Dim arithmetic) and that the cursors are correct in the first place are value-level and not decided")
